@@ -1311,6 +1311,7 @@ func driveC14(t *testing.T, out *vEmitter) {
 	vC14GenericProvider(t, out)
 	vC14EmptyEmailProviders(t, out)
 	vC14PartialRefresh(t, out)
+	vC14FamilyBearer(t, out)
 	// model correspondence for the three paths under provider-side faults (token absent / profile failing)
 	vC14ModelCases(t, out)
 }
@@ -1607,6 +1608,77 @@ func vC14PartialRefresh(t *testing.T, out *vEmitter) {
 			if bad == "ok" && !extended {
 				out.Violation("control/well-formed-refresh-not-persisted", "a well-formed refresh answer did not extend the session: the check above checks nothing", map[string]interface{}{"redis": redis, "status": r.Status})
 			}
+		}
+	}
+}
+
+// vC14FamilyBearer: bearer tokens under the providers of the OIDC family that read further claims from the token
+// (Keycloak-OIDC: realm and client roles): a correctly signed token whose claims have another JSON type than the
+// provider expects makes no session - the request is answered 401, nothing reaches the upstream.
+func vC14FamilyBearer(t *testing.T, out *vEmitter) {
+	vKeys()
+	for _, kind := range []string{"oidc", "keycloak-oidc"} {
+		kind := kind
+		e := vTryNewEnv(t, vEnvCfg{oidc: true, mod: func(o *options.Options) {
+			o.Providers[0].Type = options.ProviderType(kind)
+			o.Providers[0].OIDCConfig.InsecureSkipNonce = true
+			o.SkipJwtBearerTokens = true
+		}})
+		if e == nil {
+			out.Stat("c14_family_bearer_config_rejected", 1)
+			continue
+		}
+		ok := map[string]interface{}{"realm_access": map[string]interface{}{"roles": []interface{}{"r1"}},
+			"resource_access": map[string]interface{}{clientID: map[string]interface{}{"roles": []interface{}{"c1"}}}, "groups": []interface{}{"g"}}
+		faults := map[string]map[string]interface{}{
+			"well-formed":                 ok,
+			"realm-roles-string":          {"realm_access": map[string]interface{}{"roles": "admin"}},
+			"realm-roles-number":          {"realm_access": map[string]interface{}{"roles": 7}},
+			"realm-roles-object":          {"realm_access": map[string]interface{}{"roles": map[string]interface{}{"a": 1}}},
+			"realm-access-string":         {"realm_access": "x"},
+			"realm-access-list":           {"realm_access": []interface{}{"x"}},
+			"resource-access-string":      {"resource_access": "x"},
+			"resource-client-string":      {"resource_access": map[string]interface{}{clientID: "x"}},
+			"resource-client-roles-string": {"resource_access": map[string]interface{}{clientID: map[string]interface{}{"roles": "c1"}}},
+			"resource-client-roles-mixed": {"resource_access": map[string]interface{}{clientID: map[string]interface{}{"roles": []interface{}{"c1", 2}}}},
+		}
+		var labels []string
+		for l := range faults {
+			labels = append(labels, l)
+		}
+		sort.Strings(labels)
+		accepted := 0
+		for _, label := range labels {
+			raw := vJWT(vKeyRSA, "RS256", vClaims("user@example.com", faults[label]))
+			for _, target := range []string{"/oauth2/auth", "/page"} {
+				req, err := vRawRequest(vBuildRaw("GET", target, "app.example.com", [][2]string{{"Authorization", "Bearer " + raw}}, ""))
+				if err != nil {
+					continue
+				}
+				res := e.serve(req)
+				served := res.Status == 202 || res.Hit()
+				if served {
+					accepted++
+				}
+				out.Obs("idp-fault/family-bearer", true, vL("idp_fault", vS(kind+"-bearer"), vS("claims"), vS(label), vI(int64(res.Status)), vBool(false), vBool(served)))
+				out.Stat("idp_fault_runs", 1)
+				out.Stat("c14_family_bearer_tokens", 1)
+				if res.Panic != nil {
+					out.Violation("idp-fault/panic", fmt.Sprintf("request handling panicked on a bearer token: %v", res.Panic), map[string]interface{}{"flow": kind + "-bearer", "kind": label})
+					continue
+				}
+				// the generic provider does not read these claims: any JSON type is as good as none; Keycloak-OIDC does
+				// ... in its typed part (realm_access, the resource_access map itself); entries INSIDE resource_access that are
+				// not of the expected shape are skipped by design (getClientRoles) and contribute no role
+				wrongType := kind == "keycloak-oidc" && (strings.HasPrefix(label, "realm-") || label == "resource-access-string")
+				if wrongType && served {
+					out.Violation("idp-fault/session-from-wrongly-typed-claims", "a bearer token whose claims have another JSON type than the provider reads made a session",
+						map[string]interface{}{"provider": kind, "claims": label, "target": target, "status": res.Status})
+				}
+			}
+		}
+		if accepted == 0 {
+			out.Violation("control/no-bearer-token-accepted", "no bearer token was accepted under this provider: the sweep checks nothing", map[string]interface{}{"provider": kind})
 		}
 	}
 }
